@@ -187,3 +187,229 @@ Proof.
   intros Hok. cbn [mag ienc]. rewrite udivrem_spec by auto using enc_canon.
   rewrite !enc_val by lia. rewrite abs_eqb_0. reflexivity.
 Qed.
+
+Lemma sgn_mul_zero Y M : Y <> 0 -> (Z.sgn Y * M = 0 <-> M = 0).
+Proof.
+  intros H. destruct (Z.lt_trichotomy Y 0) as [H0|[H0|H0]];
+    [rewrite Z.sgn_neg by lia|lia|rewrite Z.sgn_pos by lia]; lia.
+Qed.
+
+(** * Part 3: the BigInt API on [ienc X], [ienc Y] *)
+Section OnEnc.
+  Variable p : div_params.
+  Hypothesis Hok : div_ok p = true.
+  Variables X Y : Z.
+  Let Q := Z.abs X / Z.abs Y.
+  Let M := Z.abs X mod Z.abs Y.
+  Let Has := dk_as p (div_ok_inv p Hok).
+
+  Lemma idiv_rem_enc : idiv_rem p (ienc X) (ienc Y) = omap ienc2 (spec_idivrem X Y).
+  Proof.
+    unfold idiv_rem, spec_idivrem, nz, omap. rewrite udivrem_mags by auto.
+    destruct (Z.eqb_spec Y 0) as [HY|HY]; [reflexivity|]. cbn [bind].
+    destruct (abs_decomp X Y HY) as (E & HM & HQ). fold Q M in E, HM, HQ |- *.
+    cbn [sg ienc]. rewrite !fb_enc by lia. rewrite sz_sgn, iis_neg_ienc, ineg_ienc.
+    rewrite Z.quot_div, Z.rem_mod by auto. fold Q M. unfold ienc2. cbn [fst snd].
+    destruct (Z.ltb_spec Y 0) as [Yn|Yp].
+    - rewrite (Z.sgn_neg Y) by lia. do 3 f_equal; lia.
+    - rewrite (Z.sgn_pos Y) by lia. do 3 f_equal; lia.
+  Qed.
+
+  Lemma idiv_enc : idiv p (ienc X) (ienc Y) = omap ienc (spec_idiv X Y).
+  Proof.
+    unfold idiv. rewrite idiv_rem_enc. unfold spec_idivrem, spec_idiv, nz, omap.
+    destruct (Y =? 0); reflexivity.
+  Qed.
+
+  Lemma ito_small_enc v : ito_small (ienc Y) = Some v -> v = Z.abs Y /\ 0 <= v < B.
+  Proof.
+    pose proof B_gt1 as HB. unfold ito_small. cbn [sg mag ienc].
+    destruct Y as [|y|y]; cbn [z_sign Z.abs].
+    - intros E; inversion E. lia.
+    - intros E. apply to_u32_some in E; [|apply enc_canon]. rewrite enc_val in E by lia. lia.
+    - unfold to_u64. pose proof (enc_canon (Z.pos y)) as C. pose proof (enc_val (Z.pos y) ltac:(lia)) as V.
+      destruct (enc (Z.pos y)) as [|d [|e l]]; try discriminate.
+      rewrite val_single in V. subst d. pose proof (canon_head_digit _ _ C).
+      destruct (Z.pos y <=? 2 ^ 31); intros E; inversion E. lia.
+  Qed.
+
+  Lemma irem_enc : irem p (ienc X) (ienc Y) = omap ienc (spec_irem X Y).
+  Proof.
+    unfold irem. rewrite (dk_short p (div_ok_inv p Hok)).
+    destruct (ito_small (ienc Y)) as [v|] eqn:Ev.
+    - destruct (ito_small_enc v Ev) as [-> Hv]. unfold spec_irem, nz, omap.
+      cbn [mag sg ienc]. rewrite <- abs_eqb_0.
+      destruct (Z.eqb_spec (Z.abs Y) 0) as [HY|HY]; [rewrite HY; reflexivity|].
+      rewrite rem_digit_spec by (auto using enc_wf; lia). cbn [bind]. rewrite enc_val by lia.
+      pose proof (Z.mod_pos_bound (Z.abs X) (Z.abs Y) ltac:(lia)).
+      rewrite of_u64_enc, fb_enc by lia. rewrite sz_sgn, Z.rem_mod by lia. reflexivity.
+    - rewrite idiv_rem_enc. unfold spec_idivrem, spec_irem, nz, omap. destruct (Y =? 0); reflexivity.
+  Qed.
+
+  Lemma idiv_mod_floor_enc : idiv_mod_floor p (ienc X) (ienc Y) = omap ienc2 (spec_idiv_mod_floor X Y).
+  Proof.
+    unfold idiv_mod_floor, udiv_mod_floor, spec_idiv_mod_floor, nz, omap. rewrite udivrem_mags by auto.
+    destruct (Z.eqb_spec Y 0) as [HY|HY]; [reflexivity|]. cbn [bind].
+    destruct (abs_decomp X Y HY) as (E & HM & HQ). fold Q M in E, HM, HQ |- *.
+    destruct (floor_signs X Y Q M HY E HM) as [Fq Fm].
+    unfold iof_u. cbn [sg ienc]. rewrite !fb_enc by lia. rewrite sz_sgn. cbn [sign_z].
+    rewrite same_sign_ienc by auto. cbn [bind]. rewrite Fq, Fm. unfold ienc2. cbn [fst snd].
+    destruct (sameb X Y).
+    - do 3 f_equal; lia.
+    - rewrite iis_zero_ienc. pose proof (sgn_mul_zero Y M HY) as Hs.
+      destruct (Z.eqb_spec M 0) as [M0|M0].
+      + replace (Z.sgn Y * M =? 0) with true by (symmetry; apply Z.eqb_eq; tauto).
+        rewrite ineg_ienc. do 3 f_equal; lia.
+      + replace (Z.sgn Y * M =? 0) with false by (symmetry; apply Z.eqb_neq; tauto).
+        rewrite ineg_ienc, ione_ienc.
+        rewrite !isub_spec by auto using ienc_canon. cbn [bind]. rewrite !ienc_val.
+        do 3 f_equal; lia.
+  Qed.
+
+  Lemma idiv_floor_enc : idiv_floor p (ienc X) (ienc Y) = omap ienc (spec_idiv_floor X Y).
+  Proof.
+    unfold idiv_floor, udiv_mod_floor, spec_idiv_floor, nz, omap. rewrite udivrem_mags by auto.
+    destruct (Z.eqb_spec Y 0) as [HY|HY]; [reflexivity|]. cbn [bind].
+    destruct (abs_decomp X Y HY) as (E & HM & HQ). fold Q M in E, HM, HQ |- *.
+    destruct (floor_signs X Y Q M HY E HM) as [Fq Fm].
+    unfold iof_u. cbn [sg ienc]. rewrite !fb_enc by lia. cbn [sign_z].
+    rewrite same_sign_ienc by auto. cbn [bind]. rewrite Fq.
+    destruct (sameb X Y).
+    - do 2 f_equal; lia.
+    - rewrite is_zero_enc by lia. destruct (Z.eqb_spec M 0) as [M0|M0].
+      + rewrite ineg_ienc. do 2 f_equal; lia.
+      + rewrite ineg_ienc, ione_ienc. rewrite isub_spec by auto using ienc_canon. rewrite !ienc_val.
+        do 2 f_equal; lia.
+  Qed.
+
+  Lemma imod_floor_enc : imod_floor p (ienc X) (ienc Y) = omap ienc (spec_imod_floor X Y).
+  Proof.
+    unfold imod_floor, umod_floor, spec_imod_floor, nz, omap. rewrite udivrem_mags by auto.
+    destruct (Z.eqb_spec Y 0) as [HY|HY]; [reflexivity|]. cbn [bind snd].
+    destruct (abs_decomp X Y HY) as (E & HM & HQ). fold Q M in E, HM, HQ |- *.
+    destruct (floor_signs X Y Q M HY E HM) as [Fq Fm].
+    cbn [sg ienc]. rewrite !fb_enc by lia. rewrite sz_sgn.
+    rewrite same_sign_ienc by auto. cbn [bind]. rewrite Fm.
+    destruct (sameb X Y); [reflexivity|].
+    rewrite iis_zero_ienc. pose proof (sgn_mul_zero Y M HY) as Hs.
+    destruct (Z.eqb_spec M 0) as [M0|M0].
+    - replace (Z.sgn Y * M =? 0) with true by (symmetry; apply Z.eqb_eq; tauto).
+      do 2 f_equal; lia.
+    - replace (Z.sgn Y * M =? 0) with false by (symmetry; apply Z.eqb_neq; tauto).
+      change (mkint (z_sign Y) (enc (Z.abs Y))) with (ienc Y).
+      rewrite isub_spec by auto using ienc_canon. rewrite !ienc_val. reflexivity.
+  Qed.
+
+  Lemma idiv_ceil_enc : idiv_ceil p (ienc X) (ienc Y) = omap ienc (spec_idiv_ceil X Y).
+  Proof.
+    unfold idiv_ceil, udiv_mod_floor, spec_idiv_ceil, nz, omap. rewrite udivrem_mags by auto.
+    destruct (Z.eqb_spec Y 0) as [HY|HY]; [reflexivity|]. cbn [bind].
+    destruct (abs_decomp X Y HY) as (E & HM & HQ). fold Q M in E, HM, HQ |- *.
+    rewrite (ceil_signs X Y Q M HY E HM).
+    unfold iof_u. cbn [sg ienc]. rewrite !fb_enc by lia. cbn [sign_z].
+    rewrite same_sign_ienc by auto. cbn [bind].
+    destruct (sameb X Y).
+    - rewrite is_zero_enc by lia. destruct (Z.eqb_spec M 0) as [M0|M0].
+      + do 2 f_equal; lia.
+      + rewrite ione_ienc, iadd_spec by auto using ienc_canon. rewrite !ienc_val. do 2 f_equal; lia.
+    - rewrite ineg_ienc. do 2 f_equal; lia.
+  Qed.
+
+  Lemma idiv_rem_euclid_enc : idiv_rem_euclid p (ienc X) (ienc Y) = omap ienc2 (spec_div_rem_euclid X Y).
+  Proof.
+    unfold idiv_rem_euclid, spec_div_rem_euclid. rewrite idiv_rem_enc. unfold spec_idivrem, nz, omap.
+    destruct (Z.eqb_spec Y 0) as [HY|HY]; [reflexivity|]. cbn [bind]. unfold ienc2 at 1. cbn [fst snd].
+    destruct (euclid_from_trunc X Y HY) as [Eq Er]. rewrite Eq, Er.
+    rewrite iis_neg_ienc, iis_pos_ienc, ione_ienc.
+    destruct (Z.rem X Y <? 0); [|reflexivity].
+    destruct (0 <? Y); rewrite ?isub_spec, ?iadd_spec by auto using ienc_canon; cbn [bind];
+      rewrite ?isub_spec, ?iadd_spec by auto using ienc_canon; cbn [bind]; rewrite !ienc_val; reflexivity.
+  Qed.
+
+  Lemma idiv_euclid_enc : idiv_euclid p (ienc X) (ienc Y) = omap ienc (spec_div_euclid X Y).
+  Proof.
+    unfold idiv_euclid, spec_div_euclid. rewrite idiv_rem_enc. unfold spec_idivrem, nz, omap.
+    destruct (Z.eqb_spec Y 0) as [HY|HY]; [reflexivity|]. cbn [bind]. unfold ienc2. cbn [fst snd].
+    destruct (euclid_from_trunc X Y HY) as [Eq Er]. rewrite Eq.
+    rewrite iis_neg_ienc, iis_pos_ienc, ione_ienc.
+    destruct (Z.rem X Y <? 0); [|reflexivity].
+    destruct (0 <? Y); rewrite ?isub_spec, ?iadd_spec by auto using ienc_canon; rewrite !ienc_val; reflexivity.
+  Qed.
+
+  Lemma irem_euclid_enc : irem_euclid p (ienc X) (ienc Y) = omap ienc (spec_rem_euclid X Y).
+  Proof.
+    unfold irem_euclid, spec_rem_euclid. rewrite irem_enc. unfold spec_irem, nz, omap.
+    destruct (Z.eqb_spec Y 0) as [HY|HY]; [reflexivity|]. cbn [bind].
+    destruct (euclid_from_trunc X Y HY) as [Eq Er]. rewrite Er.
+    rewrite iis_neg_ienc, iis_pos_ienc.
+    destruct (Z.rem X Y <? 0); [|reflexivity].
+    destruct (0 <? Y); rewrite ?isub_spec, ?iadd_spec by auto using ienc_canon; rewrite !ienc_val; reflexivity.
+  Qed.
+End OnEnc.
+
+(** * Part 4: statements for arbitrary canonical BigInt operands *)
+Ltac to_enc Hx Hy :=
+  rewrite <- (ienc_of_icanon _ Hx), <- (ienc_of_icanon _ Hy), !ienc_val.
+
+Section General.
+  Variable p : div_params.
+  Hypothesis Hok : div_ok p = true.
+  Variables x y : bigint.
+  Hypothesis Hx : icanon x.
+  Hypothesis Hy : icanon y.
+
+  Theorem idiv_rem_spec : idiv_rem p x y = omap ienc2 (spec_idivrem (ival x) (ival y)).
+  Proof. to_enc Hx Hy. apply idiv_rem_enc; auto. Qed.
+  Theorem idiv_spec : idiv p x y = omap ienc (spec_idiv (ival x) (ival y)).
+  Proof. to_enc Hx Hy. apply idiv_enc; auto. Qed.
+  Theorem irem_spec : irem p x y = omap ienc (spec_irem (ival x) (ival y)).
+  Proof. to_enc Hx Hy. apply irem_enc; auto. Qed.
+  Theorem idiv_floor_spec : idiv_floor p x y = omap ienc (spec_idiv_floor (ival x) (ival y)).
+  Proof. to_enc Hx Hy. apply idiv_floor_enc; auto. Qed.
+  Theorem imod_floor_spec : imod_floor p x y = omap ienc (spec_imod_floor (ival x) (ival y)).
+  Proof. to_enc Hx Hy. apply imod_floor_enc; auto. Qed.
+  Theorem idiv_mod_floor_spec : idiv_mod_floor p x y = omap ienc2 (spec_idiv_mod_floor (ival x) (ival y)).
+  Proof. to_enc Hx Hy. apply idiv_mod_floor_enc; auto. Qed.
+  Theorem idiv_ceil_spec : idiv_ceil p x y = omap ienc (spec_idiv_ceil (ival x) (ival y)).
+  Proof. to_enc Hx Hy. apply idiv_ceil_enc; auto. Qed.
+  Theorem idiv_euclid_spec : idiv_euclid p x y = omap ienc (spec_div_euclid (ival x) (ival y)).
+  Proof. to_enc Hx Hy. apply idiv_euclid_enc; auto. Qed.
+  Theorem irem_euclid_spec : irem_euclid p x y = omap ienc (spec_rem_euclid (ival x) (ival y)).
+  Proof. to_enc Hx Hy. apply irem_euclid_enc; auto. Qed.
+  Theorem idiv_rem_euclid_spec : idiv_rem_euclid p x y = omap ienc2 (spec_div_rem_euclid (ival x) (ival y)).
+  Proof. to_enc Hx Hy. apply idiv_rem_euclid_enc; auto. Qed.
+
+  Lemma iis_zero_ival : iis_zero y = (ival y =? 0).
+  Proof. rewrite <- (ienc_of_icanon _ Hy), ienc_val. apply iis_zero_ienc. Qed.
+
+  Theorem ichecked_div_spec :
+    ichecked_div p x y = omap (option_map ienc) (spec_ichecked_div (ival x) (ival y)).
+  Proof.
+    unfold ichecked_div. rewrite (dk_g5 p (div_ok_inv p Hok)), iis_zero_ival.
+    apply guarded_spec. apply idiv_spec.
+  Qed.
+  Theorem ichecked_div_inherent_spec :
+    ichecked_div_inherent p x y = omap (option_map ienc) (spec_ichecked_div (ival x) (ival y)).
+  Proof.
+    unfold ichecked_div_inherent. rewrite (dk_g9 p (div_ok_inv p Hok)), iis_zero_ival.
+    apply guarded_spec. apply idiv_spec.
+  Qed.
+  Theorem ichecked_div_euclid_spec :
+    ichecked_div_euclid p x y = omap (option_map ienc) (spec_ichecked_div_euclid (ival x) (ival y)).
+  Proof.
+    unfold ichecked_div_euclid. rewrite (dk_g6 p (div_ok_inv p Hok)), iis_zero_ival.
+    apply guarded_spec. apply idiv_euclid_spec.
+  Qed.
+  Theorem ichecked_rem_euclid_spec :
+    ichecked_rem_euclid p x y = omap (option_map ienc) (spec_ichecked_rem_euclid (ival x) (ival y)).
+  Proof.
+    unfold ichecked_rem_euclid. rewrite (dk_g7 p (div_ok_inv p Hok)), iis_zero_ival.
+    apply guarded_spec. apply irem_euclid_spec.
+  Qed.
+  Theorem ichecked_div_rem_euclid_spec :
+    ichecked_div_rem_euclid p x y = omap (option_map ienc2) (spec_ichecked_div_rem_euclid (ival x) (ival y)).
+  Proof.
+    unfold ichecked_div_rem_euclid. rewrite (dk_g8 p (div_ok_inv p Hok)), iis_zero_ival.
+    apply guarded_spec. apply idiv_rem_euclid_spec.
+  Qed.
+End General.
